@@ -86,6 +86,38 @@ def group_cases(tlc_cases):
     return out
 
 
+def spec_dims():
+    """The dimension table of spec/TdxVerify.tla (single source of truth), parsed from the module text."""
+    import re
+    src = open(os.path.join(C.SPEC, "TdxVerify.tla")).read()
+    m = re.search(r"Dims == \[(.*?)\n\]\n", src, re.S)
+    dims = {}
+    for d, vals in re.findall(r"(\w+)\s*\|->\s*<<(.*?)>>", m.group(1), re.S):
+        dims[d] = re.findall(r'"(\w+)"', vals)
+    return dims
+
+
+def random_worlds(cases, n):
+    """Seeded random worlds beyond TLC's budget (3 to 5 deviating dimensions), appended to the case list. They go through the same
+    recorder and the same TLC judges; a combination the generator's self-check refuses is counted as skipped."""
+    import random
+    dims = spec_dims()
+    names = [d for d in dims if d != "src"]
+    rnd = random.Random(C.seed() * 7919 + 13)
+    nid = max([c["id"] for c in cases] + [0])
+    added = 0
+    while added < n:
+        ds = rnd.sample(names, rnd.choice([3, 4, 5]))
+        w = {d: rnd.choice(dims[d][1:]) for d in ds}
+        if w.get("rotVia", "pool") != "pool" and w.get("pool") == "empty":
+            continue
+        nid += 1
+        added += 1
+        cases.append(dict(id=nid, w=w, x=dict(lenient=True),
+                          runs=[dict(gc=g, cr=c_, now="set", entry=rnd.choice(["raw", "msg"])) for g, c_ in ((False, False), (True, False), (True, True))]))
+    return added
+
+
 def split_trace(path, wd, max_events=25000):
     """Split an ndjson trace at case boundaries into chunks of at most max_events events."""
     chunks, cur, cur_case, n = [], [], None, 0
@@ -173,6 +205,7 @@ def run(prop, tier, judge_prop=None, level="model_checking", extra_cov=None, cas
     cases = group_cases(r.cases)
     if cases_filter:
         cases = [c for c in cases if cases_filter(c)]
+    n_random = random_worlds(cases, 4000 if tier == "thorough" else 300)
     cases_path = os.path.join(wd, "cases.jsonl")
     with open(cases_path, "w") as f:
         for c in cases:
@@ -227,6 +260,7 @@ def run(prop, tier, judge_prop=None, level="model_checking", extra_cov=None, cas
         "traces_validated_against_impl": summ["runs"],
         "events_judged": summ["events"],
         "worlds": len(cases),
+        "random_worlds_beyond_budget": n_random,
         "exhaustive": True,
         "model_constants": cfg_text(prop, tier, invs=[]).strip().splitlines()[1:5],
         "invariants_checked_on_model": ALL_INV,
@@ -234,7 +268,7 @@ def run(prop, tier, judge_prop=None, level="model_checking", extra_cov=None, cas
         "skipped_unrealisable": summ["skipped"],
         "strict_conformance": "all events are behaviours of the pipeline model" if drift is None else drift,
         "samples": summ["samples"][:4],
-        "rule": "every world within the fault budget x every option setting, TLC-enumerated; each run of the real code is one trace",
+        "rule": "every world within the fault budget x every option setting, TLC-enumerated, plus seeded random worlds with 3-5 deviating dimensions; each run of the real code is one trace",
     }
     if extra_cov:
         cov.update(extra_cov)
